@@ -8,6 +8,18 @@ ALL = ['C%02d' % i for i in range(1, 21)]
 
 # property -> (technique, level text, level note, design ref)
 CHECKS = {
+ 'C01': ('rapidcheck-generated resolver/observer programs x generated/swept thread schedules on the virtual runtime; oracle = exactly-one-winner count, winner payload equality, observer agreement, instance counting, allocation balance, ASan/UBSan/assert',
+         'Exploration: every generated (program, schedule, faults) triple runs the real future/promise under a scheduler the harness owns; all 1-preemption schedules of the swept programs are enumerated.',
+         'sequentially consistent interleavings only; <=4 resolvers, <=2 observers; 5 value types', '3 C01'),
+ 'C02': ('rapidcheck-generated waiter/resolver programs x generated/swept schedules + injected spurious weak-CAS failures; oracle = per-waiter release count == 1, ready() at release, release-after-set order, complete payload (checksummed), deadlock detector, ASan (stack-use-after-return on released waiters)',
+         'Exploration over 7 waiter kinds x 6 resolver kinds x 5 value types x schedules; classes before/overlap/after of the resolution are all populated and counted in the evidence.',
+         'sequentially consistent interleavings only; <=3 waiters, one resolver', '3 C02'),
+ 'C03': ('the multi-threaded scenarios of the other properties executed under ThreadSanitizer (clang++) on the virtual runtime with generated/swept schedules; the baton is invisible to TSan and atomic_thread_fence is modelled explicitly; oracle = TSan happens-before race detector + payload checksums',
+         'Exploration: data races are decided exactly for the executed accesses under the declared memory orders (happens-before analysis, not timing), for every explored interleaving.',
+         'sequentially consistent interleavings only: stale values that only weakly ordered hardware produces through relaxed atomics alone are out of reach; shared_ptr internals not interposed', '3 C03'),
+ 'C08': ('same generator as C07; oracle over the recorded call history = interval-order FIFO, direct hand-off (no try_lock succeeds while a registered waiter waits), every request granted (deadlock/livelock detector), final try_lock succeeds',
+         'Exploration as C07; the FIFO oracle is an invariant over the recorded history (logical clock ticks at call boundaries), sound for any interleaving.',
+         'sequentially consistent interleavings only; <=4 contenders x <=3 rounds; liveness is bounded (deadlock exact per schedule, livelock = step budget)', '3 C08'),
  'C07': ('rapidcheck-generated contender programs x generated/swept thread schedules on a virtual runtime; oracle = critical-section holder invariant + double-resumption detector + ASan/UBSan/assert + deadlock detector',
          'Exploration: every generated (program, schedule) pair is executed against the real mutex under a scheduler the harness owns; all 1-preemption schedules of the swept programs are enumerated. Holds on everything explored; no absence claim.',
          'sequentially consistent interleavings only; <=4 contenders x <=3 rounds; scheduling points at interposed std primitives and harness yields', '3 C07'),
